@@ -493,6 +493,7 @@ fn main() {
         "adversarial" => codec::run_adversarial(&cfg),
         "odd_statement" => codec::run_odd_statement(&cfg),
         "ctor" => codec::run_ctor(&cfg),
+        "gens" => codec::run_gens(&cfg),
         other => json!({"error": format!("unknown scenario {}", other)}),
     };
     println!("{}", json!({"flavour": env::FLAVOUR, "config": cfg, "out": out, "core": env::dump()}));
